@@ -737,7 +737,9 @@ fn gen_hcase(rng: &mut Rng, e2e: bool, report: &mut Report) -> HCase {
     // rejects can be written); they use one schema throughout, because a schema
     // change flushes the buffer
     let noflush = !e2e && rng.chance(1, 6);
-    let noflush_schema = *rng.pick(&[1u32, 2, 3, 4, 4]);
+    // (batches whose timestamp is neither Int64 nor Timestamp(ns) are not generated:
+    // compute_shard_id then derives the shard from the wall clock, not from the data)
+    let noflush_schema = *rng.pick(&[1u32, 2, 3]);
     let flush_rows = if noflush { 100_000 } else { rng.range_usize(1, 9) };
     let mut ops = Vec::new();
     let mut pool: Vec<Row> = Vec::new();
